@@ -3,6 +3,17 @@
 // C17 contracts for package dtlshandshake (comment-only; read by /verif/vc).
 package dtlshandshake
 
+// ASSUMPTIONS (reported): the flight parser / generator function values obtained from
+// flight12.getFlightParser / GetGenerator (and their flight13 twins) are the library's own flight
+// handlers; they write handshake state, the handshake cache, protocol messages and byte buffers,
+// never the FSM's own bookkeeping or the configuration. The session-store callbacks have no effect
+// on program state.
+//@ assume-pure ret.flight12.getFlightParser#0 writes github.com/pion/dtls/v3/internal/state. github.com/pion/dtls/v3/internal/flight. github.com/pion/dtls/v3/internal/negotiation. github.com/pion/dtls/v3/internal/ciphersuite. github.com/pion/dtls/v3/pkg/ uint8 []uint8 $alloc
+//@ assume-pure ret.flight12.GetGenerator#0 writes github.com/pion/dtls/v3/internal/state. github.com/pion/dtls/v3/internal/flight. github.com/pion/dtls/v3/internal/negotiation. github.com/pion/dtls/v3/internal/ciphersuite. github.com/pion/dtls/v3/pkg/ uint8 []uint8 $alloc
+//@ assume-pure ret.flight13.getFlightParser#0 writes github.com/pion/dtls/v3/internal/state. github.com/pion/dtls/v3/internal/flight. github.com/pion/dtls/v3/internal/negotiation. github.com/pion/dtls/v3/internal/ciphersuite. github.com/pion/dtls/v3/pkg/ uint8 []uint8 $alloc
+//@ assume-pure ret.flight13.GetGenerator#0 writes github.com/pion/dtls/v3/internal/state. github.com/pion/dtls/v3/internal/flight. github.com/pion/dtls/v3/internal/negotiation. github.com/pion/dtls/v3/internal/ciphersuite. github.com/pion/dtls/v3/pkg/ uint8 []uint8 $alloc
+//@ assume-pure HandshakeConfig.DelSession
+
 // The FSM's Conn is the library's own adapter (dtls.handshakeConn, the only implementation).
 //@ define ownConn(c) typeIs(c, "github.com/pion/dtls/v3.handshakeConn")
 
@@ -64,4 +75,63 @@ package dtlshandshake
 //@ loop #1: interval-initial-or-unchanged: s.retransmitInterval == old(s.retransmitInterval) || s.retransmitInterval == s.cfg.InitialRetransmitInterval
 //@ loop #1: no-event-no-reset: !called("Parse") ==> s.retransmitInterval == old(s.retransmitInterval)
 //@ loop #1: timer-not-yet: !called("handleRetransmitTimeout") && !called("handleWaitCancellation") && !called("Conn.WritePackets")
+//@ end
+
+// DTLS 1.3 (RFC 9147 5.8): after a received event the current flight is re-sent only for a cause -
+// an empty ACK, partial ACK progress, or the peer's retransmission - and only while the flight is
+// still retransmittable; the backoff law is handleRetransmitTimeout's. A fully acknowledged flight
+// stops the timer.
+
+//@ func fsm13.transitionAfterACK
+//@ watch handleRetransmitTimeout
+//@ requires args: s != nil && s.cfg != nil
+//@ requires interval-range: ivOK(s.retransmitInterval)
+//@ ensures resend-has-cause: result0.state == StateSending ==> result.Empty || len(result.Messages) != 0 || peerRetransmit
+//@ ensures resend-only-if-retransmittable: result0.state == StateSending ==> old(s.retransmit) && called("handleRetransmitTimeout")
+//@ ensures no-cause-no-resend: !result.Empty && len(result.Messages) == 0 && !peerRetransmit ==> result0.state == StateWaiting && s.retransmitInterval == old(s.retransmitInterval) && !called("handleRetransmitTimeout")
+//@ ensures fully-acked-stops-timer: len(result.Messages) != 0 && len(old(s.flightACK.pending)) == 0 ==> !s.retransmit && result0.state != StateSending && s.retransmitInterval == old(s.retransmitInterval)
+//@ ensures backoff-doubles: result0.state == StateSending && !s.cfg.DisableRetransmitBackoff ==> s.retransmitInterval == min(2*old(s.retransmitInterval), 60000000000)
+//@ ensures backoff-off: result0.state == StateSending && s.cfg.DisableRetransmitBackoff ==> s.retransmitInterval == min(old(s.retransmitInterval), 60000000000)
+//@ ensures outcomes: result0.state == StateSending || result0.state == StateWaiting || result0.state == StateFinished
+//@ ensures no-flight-change: result0.nextFlight == 0 && !result0.retainPendingRecv
+//@ end
+
+// A duplicate of the peer's previous flight (it did not get our final flight): ACK it, then the
+// same timer law decides whether the final flight goes out again.
+
+//@ func fsm13.handlePreviousFlightRetransmit
+//@ watch sendACK fsm13.transitionAfterACK handleRetransmitTimeout
+//@ requires args: s != nil && s.cfg != nil && s.state != nil && s.state.Common != nil && ownConn(conn) && !isNil(ctx)
+//@ requires interval-range: ivOK(s.retransmitInterval)
+//@ ensures acks-first: result1 == nil ==> calledBefore("sendACK", "fsm13.transitionAfterACK")
+//@ ensures ack-failure-stops: result1 != nil ==> result0.state == 0 && !called("fsm13.transitionAfterACK")
+//@ ensures resend-by-timer-law: result0.state == StateSending ==> called("handleRetransmitTimeout") && argBool("handleRetransmitTimeout", 0)
+//@ ensures treated-as-peer-retransmit: result1 == nil ==> argBool("fsm13.transitionAfterACK", 2)
+//@ end
+
+// One received event (DTLS 1.3): the interval is restored to the configured initial value only
+// for an event that is not a retransmission; a retransmitted event leaves it to the timer law.
+
+//@ func fsm13.handleReceivedFlight
+//@ watch handleRetransmitTimeout fsm13.transitionAfterACK fsm13.handlePreviousFlightRetransmit fsm13.parseReceivedFlight
+//@ requires args: s != nil && s.cfg != nil && s.state != nil && s.state.Common != nil && ownConn(conn) && !isNil(ctx)
+//@ requires interval-range: ivOK(s.retransmitInterval) && ivOK(s.cfg.InitialRetransmitInterval)
+//@ ensures retransmission-does-not-reset: received.IsRetransmit && !called("handleRetransmitTimeout") && result1 == nil ==> s.retransmitInterval == old(s.retransmitInterval)
+//@ ensures new-data-restores-initial: !received.IsRetransmit && result1 == nil ==> s.retransmitInterval == s.cfg.InitialRetransmitInterval
+//@ ensures resend-by-timer-law: result0.state == StateSending && result1 == nil && !called("fsm13.parseReceivedFlight") ==> called("handleRetransmitTimeout") && argBool("handleRetransmitTimeout", 0)
+//@ ensures ack-only-event-is-not-peer-retransmit: !received.HasHandshake && len(received.ACKs) != 0 ==> called("fsm13.transitionAfterACK") && !argBool("fsm13.transitionAfterACK", 2) && !called("fsm13.parseReceivedFlight")
+//@ ensures duplicate-final-flight: received.HasHandshake && received.IsRetransmit && old(s.currentFlight) == dtlsflight13.Flight5 && (len(received.ACKs) == 0) ==> called("fsm13.handlePreviousFlightRetransmit") && !called("fsm13.parseReceivedFlight")
+//@ end
+
+// Post-handshake flights (KeyUpdate, NewSessionTicket): same backoff law on each timer expiry.
+
+//@ func postHandshake.retransmitPostHandshakeFlight
+//@ watch Conn.WritePackets
+//@ requires args: p != nil && flight != nil && ownConn(conn) && !isNil(ctx)
+//@ requires interval-range: ivOK(flight.RetransmitInterval)
+//@ ensures sends-once: ncalls("Conn.WritePackets") == 1
+//@ ensures backoff-doubles: result == nil && !disableRetransmitBackoff ==> flight.RetransmitInterval == min(2*old(flight.RetransmitInterval), 60000000000)
+//@ ensures backoff-off: result == nil && disableRetransmitBackoff ==> flight.RetransmitInterval == old(flight.RetransmitInterval)
+//@ ensures cap-60s: result == nil && !disableRetransmitBackoff ==> flight.RetransmitInterval <= 60000000000 && flight.RetransmitInterval > 0
+//@ ensures failed-write-keeps-interval: result != nil ==> flight.RetransmitInterval == old(flight.RetransmitInterval)
 //@ end
